@@ -4,7 +4,7 @@ use crate::{
     logging, stat, utils,
     utils::AsAny,
 };
-use lazy_static::lazy_static;
+use crate::vsync::lazy_static;
 use std::sync::Arc;
 
 const RULE_CHECK_SLOT_ORDER: u32 = 2000;
